@@ -36,11 +36,14 @@ FAMILIES = {'alcohols': ['Water', 'Methanol', 'Ethanol', 'Propanol', 'Butanol'],
             'hydrocarbons': ['Hexane', 'Heptane', 'Octane', 'Benzene', 'Toluene']}
 
 
-def real(family, ideal):
-    key = (family, ideal)
+def real(family, ideal, pcf=False):
+    key = (family, ideal, pcf)
     if key not in _th:
         cc = tmo.Chemicals(FAMILIES[family])
-        if ideal:
+        if pcf:
+            # activity coefficients (default) with the Poynting correction switched on
+            _th[key] = tmo.Thermo(cc, cache=False, PCF=eq.IdealGasPoyintingCorrectionFactors)
+        elif ideal:
             _th[key] = tmo.Thermo(cc, cache=False, Gamma=eq.IdealActivityCoefficients, Phi=eq.IdealFugacityCoefficients, PCF=eq.MockPoyintingCorrectionFactors)
         else:
             _th[key] = tmo.Thermo(cc, cache=False)
@@ -81,14 +84,14 @@ def exact(op, w, spec, scale, perm):
     return obs
 
 
-def measured(family, ideal, ids, z, T0, k, perm):
+def measured(family, ideal, ids, z, T0, k, perm, pcf=False):
     """residuals of the C08 clauses on a real package at composition z (over ids), temperature T0"""
-    obs = dict(exc=NONE, msg='', eq_dev=0, norm_dev=0, rt_dev=0, order_ok=True, single_dev=0, scale_dev=0, perm_dev=0)
+    obs = dict(exc=NONE, msg='', eq_dev=0, norm_dev=0, rt_dev=0, order_ok=True, single_dev=0, scale_dev=0, perm_dev=0, hist_dev=0, in_range=True)
     try:
         with warnings.catch_warnings():
             warnings.simplefilter('ignore')
             with np.errstate(all='ignore'):
-                th = real(family, ideal)
+                th = real(family, ideal, pcf)
                 chems = [getattr(th.chemicals, i) for i in ids]
                 z = np.asarray(z, float)
                 zn = z / z.sum()
@@ -98,6 +101,7 @@ def measured(family, ideal, ids, z, T0, k, perm):
                 d = dp(zn, T=T0)
                 Pd, x = d.P, np.asarray(d.x, float)
                 pos = zn > 0
+                obs['in_range'] = bool(5e3 <= Pd <= 3e6 and 5e3 <= Pb <= 3e6)
                 # the defining equations, evaluated with the library's own model objects at the returned point
                 Psats = np.array([c.Psat(T0) for c in chems])
                 if pos.sum() > 1:
@@ -134,6 +138,18 @@ def measured(family, ideal, ids, z, T0, k, perm):
                 b3, d3 = bp2(zn[p], P=Pb), dp2(zn[p], P=Pd)
                 obs['perm_dev'] = cap(max(abs(b2.P - Pb) / Pb, abs(d2.P - Pd) / Pd, abs(b3.T - Tb) / Tb, abs(d3.T - Td) / Td,
                                           np.abs(np.asarray(b2.y) - y[p]).max(), np.abs(np.asarray(d2.x) - x[p]).max()) * 1e9)
+                # the answer depends on the composition only, not on what the (cached) solver objects were asked before:
+                # requests at another composition in between, then the first requests again
+                zo = zn[::-1].copy() if len(ids) > 1 else zn
+                zo = (zo + 0.05) / (zo + 0.05).sum() if pos.sum() > 1 else zo
+                for o_, kw in ((bp, dict(T=T0)), (dp, dict(T=T0)), (bp, dict(P=Pb)), (dp, dict(P=Pd))):
+                    try:
+                        o_(zo, **kw)
+                    except Exception:
+                        pass
+                b4, d4 = bp(zn, T=T0), dp(zn, T=T0)
+                b5, d5 = bp(zn, P=Pb), dp(zn, P=Pd)
+                obs['hist_dev'] = cap(max(abs(b4.P - Pb) / Pb, abs(d4.P - Pd) / Pd, abs(b5.T - Tb) / Tb, abs(d5.T - Td) / Td) * 1e9)
     except Exception as e:
         obs['exc'], obs['msg'] = type(e).__name__, str(e)[:160]
     return obs
